@@ -4,6 +4,8 @@
 //!                            (same request language as the Lean driver).
 //! `harness prop  < cases`  — evaluates the property itself on the implementation.
 mod codec;
+mod curve;
+mod curveprop;
 mod dump;
 mod events;
 mod frame;
@@ -57,6 +59,7 @@ fn dispatch_impl(toks: &[&str]) -> String {
         .or_else(|| reader::dispatch_impl(toks))
         .or_else(|| writer::dispatch_impl(toks))
         .or_else(|| codec::dispatch_impl(toks))
+        .or_else(|| curve::dispatch_impl(toks))
         .or_else(|| timing::dispatch_impl(toks))
         .or_else(|| sections::dispatch_impl(toks))
         .or_else(|| hitobj::dispatch_impl(toks))
@@ -70,6 +73,7 @@ fn dispatch_prop(toks: &[&str]) -> String {
         .or_else(|| reader::dispatch_prop(toks))
         .or_else(|| writer::dispatch_prop(toks))
         .or_else(|| codec::dispatch_prop(toks))
+        .or_else(|| curve::dispatch_prop(toks))
         .or_else(|| timing::dispatch_prop(toks))
         .or_else(|| sections::dispatch_prop(toks))
         .or_else(|| hitobj::dispatch_prop(toks))
